@@ -6,6 +6,15 @@ hooks = subprocess.run(["git", "-C", "/repo", "log", "--format=%H %s"], capture_
 hook_commits = [l.split()[0] for l in hooks if l.split(" ", 1)[1].startswith("verif:")]
 
 CHECKS = {
+ "C01": dict(engine="dispatch", design="§5 C01", technique="TLC exhaustive check of Dispatch.tla (all interleavings, cancel anywhere) + code->spec validation of per-goroutine traces of real Sends (DispatchTrace.tla) + registry replay of deliveries",
+   text="Model checking of the dispatch protocol (AtMostOnce, ForwardOnlyIf, CarryExact, liveness ForwardIf/AllStartedWhenNotCancelled) over every interleaving of collector, ranger and node goroutines with cancellation at every step; real Sends over generated configurations are recorded through hooks, validated by TLC against the model, and judged by per-execution oracles on the nodes' own logs.",
+   note="Trusted: harness node logs, event pointer identity. A recorded execution the model rejects while every oracle holds is reported as MODEL-DRIFT, not as a violation."),
+ "C02": dict(engine="dispatch", design="§5 C02", technique="TLC exhaustive check of Dispatch.tla (Truthful, OnePerPipe, CompleteWhenNotCancelled, ErrIff over threshold pairs) + trace validation of real Sends incl. the returned Status + registry replay of threshold semantics",
+   text="Model checking of status accounting and the threshold rule for all outcome vectors and cancel points of the bounded model; every recorded Send's returned Status/error is bound to the collector's received set by the trace specification and checked against what the harness nodes actually returned.",
+   note="Trusted: harness node logs. Error texts and the order of ids are not compared."),
+ "C03": dict(engine="dispatch", design="§5 C03", technique="TLC deadlock-freedom and liveness (Terminated, PromptOnCancel with collector-only fairness) on Dispatch.tla + directed runs of the real Send with the context cancelled at every hook position while nodes are held inside Process",
+   text="Model checking of termination: no reachable stuck state, eventual quiescence under fairness, prompt return after cancel with fairness on the collector only. The real Send is run with cancellation injected at every (hook point, instance) position with all node returns held until Send has returned; a watchdog and a goroutine dump decide return and leak freedom; traces are validated by TLC.",
+   note="Trusted: runtime.Stack shows goroutines of Send under eventlogger.(*graph) frames; 5 s watchdog with nodes held (not a latency assertion)."),
  "C05": dict(engine="registry", design="§5 C05", technique="TLC exhaustive check of Registry.tla + Validate.tla; spec->code replay of every model transition, simulated walks and all acceptance vectors on the real Broker",
    text="Model checking of the registry model (all histories to the depth bound, all node-type sequences up to the length bound) with the model bound to the real Broker by replaying every transition: result class of every call, deliveries, IsAnyPipelineRegistered and in-use probes are compared on every edge.",
    note="Trusted: harness node logs; bounded depth (exhaustive) plus random walks beyond it; options passed are well-formed except where the model passes an invalid policy."),
@@ -20,6 +29,7 @@ CHECKS = {
    note="Trusted: harness node Reopen counters."),
 }
 ENGINES = [
+ {"name": "dispatch", "path": "spec/dispatch + harness/dispatch + lib/fam_dispatch.py", "serves_properties": ["C01", "C02", "C03"], "kind_free_text": "TLA+ model of graph.process/doProcess, TLC exhaustive + liveness, trace validation of recorded Sends"},
  {"name": "registry", "path": "spec/registry + harness/registry + lib/fam_registry.py", "serves_properties": ["C05", "C06", "C07", "C20"], "kind_free_text": "TLA+ model of the Broker registry, TLC exhaustive + simulation, Go replayer"},
 ]
 NOT_YET = {}
